@@ -190,7 +190,7 @@ Lemma step_A s f ag s' ag' :
   InvA s (f :: ag) -> h_destroying s = false -> step s f ag = (s', ag') -> InvA s' ag'.
 Proof.
   intros HA Hnd H.
-  destruct f as [[cb|full nl cb| | |r|]| | | |]; cbn [step do_op] in H; rewrite ?Hnd in H; cbn [negb andb] in H;
+  destruct f as [[sn cb|full nl cb| | |r|]| | | |]; cbn [step do_op] in H; rewrite ?Hnd in H; cbn [negb andb] in H;
     rewrite ?andb_true_r in H; unfold InvA in HA; cbn [ndone] in HA.
   - destruct (s_max s <=? len (s_queue s)).
     + inversion H; subst. unfold InvA. cbn. rewrite ndone_app, ndone_fop. exact HA.
@@ -263,7 +263,7 @@ Proof.
 Qed.
 Lemma step_hd s f ag s' ag' : step s f ag = (s', ag') -> h_destroying s' = h_destroying s.
 Proof.
-  intros H. destruct f as [[cb|full nl cb| | |r|]| | | |]; cbn [step do_op] in H.
+  intros H. destruct f as [[sn cb|full nl cb| | |r|]| | | |]; cbn [step do_op] in H.
   - destruct (s_max s <=? len (s_queue s)).
     + inversion H; subst; reflexivity.
     + apply take_next_hd in H. exact H.
@@ -319,7 +319,7 @@ Lemma step_AD s f ag s' ag' :
   AD s' /\ dag ag' /\ dend s' ag'.
 Proof.
   intros Hd (Hp & Hl & Hc & Hf) Hdag Hend H. unfold dag in Hdag. inversion Hdag as [|? ? Hdf Hdag']; subst.
-  destruct f as [[cb|full nl cb| | |r|]| | | |]; cbn in Hdf; try contradiction; cbn [step do_op] in H;
+  destruct f as [[sn cb|full nl cb| | |r|]| | | |]; cbn in Hdf; try contradiction; cbn [step do_op] in H;
     rewrite ?Hd in H; cbn [negb andb] in H; rewrite ?andb_false_r in H.
   - assert (Ht : exists pre, ag = pre ++ [FDestroy]) by (eapply dend_tail; [|exact Hend]; discriminate).
     destruct (s_max s <=? len (s_queue s)).
